@@ -322,7 +322,8 @@ fn expected_span(m: &Meta) -> Option<R> {
         Meta::Path(p) => Some(span_range(p.span())),
         Meta::List(l) => {
             if l.tokens.is_empty() {
-                None
+                // nothing between the delimiters: the value's own range is the delimiters themselves
+                Some(span_range(l.delimiter.span().join()))
             } else {
                 Some(span_range(l.tokens.span()))
             }
